@@ -93,6 +93,11 @@ def gen(rng, tier):
             rng.shuffle(new)
         if new:
             steps.append({"op": "update", "feats": new, "form": rng.choice(["path", "list", "gen", "iter1", "string"])})
+    if rng.random() < 0.3:
+        # re-import some stored lines unchanged with merge_strategy='replace': the graph must stay what it is
+        pool_ = [f for st in steps for f in st.get("feats", [])]
+        again = [f for f in rng.sample(pool_, min(len(pool_), rng.choice([1, 2, 3])))]
+        steps.append({"op": "update", "feats": [dict(f) for f in again], "form": rng.choice(["list", "gen", "path"]), "strategy": "replace"})
     steps.append({"op": rng.choice(["reopen", "restart", "none"])})
     fault = None
     if rng.random() < 0.25:
@@ -227,7 +232,7 @@ def run(case):
             if k not in ("create", "update"):
                 continue
             spec = G.source_spec(None, st["feats"], form=st["form"])
-            req = {"op": k, "h": "h", "data": spec, "kw": {"merge_strategy": "error"}}
+            req = {"op": k, "h": "h", "data": spec, "kw": {"merge_strategy": st.get("strategy", "error")}}
             if k == "create":
                 req["db"] = ":memory:" if case.get("memory") else "a.db"
                 if case.get("memory"):
@@ -251,7 +256,9 @@ def run(case):
                     break
                 V.append(viol("C02.store", "%s raised %s: %s" % (k, r["exc"], r["msg"]), kind="import_failed", exc=r["exc"]))
                 break
-            model.import_gff3(st["feats"])
+            model.import_gff3(st["feats"], strategy=st.get("strategy", "error"))
+            if st.get("strategy") == "replace":
+                probes["stored_lines_reimported_with_replace"] = 1
             alive = True
             if r.get("fired"):
                 # a fault fired but the import was acknowledged: level-2 rows must still be complete
@@ -281,7 +288,7 @@ def run(case):
         # the same import+update history under source failures / sql errors / cancels / crashes inside the updates
         # (relaxed C10-style oracle): the graph law must hold in whatever state the store is left
         from checks import c10
-        steps = [dict(s, strategy="error") for s in case["steps"] if s["op"] in ("create", "update", "reopen", "restart")]
+        steps = [dict(s, strategy=s.get("strategy", "error")) for s in case["steps"] if s["op"] in ("create", "update", "reopen", "restart")]
         if len(steps[0].get("feats", [])) <= 40:
             vs, st2, pr2 = c10.fault_profile(steps, {}, case["fault_seed"], "C02.faulted")
             V.extend(vs)
